@@ -381,3 +381,41 @@ Definition gi_out_eqb (a b : gi_out) : bool :=
   end.
 Definition groups_eqb {K} (keqb : K -> K -> bool) (a b : list (K * list cell)) : bool :=
   list_eqb (pair_eqb keqb (list_eqb cell_seqb)) a b.
+
+(* ------------------------------------------------------------------ t[a:b:c] with a NEGATIVE step
+   slice.indices(len) for step < 0: lower = -1, upper = len-1; start defaults to upper, stop to
+   lower; a negative bound v is max(v + len, lower), a non-negative one min(v, upper); the selected
+   positions are start, start-|c|, ... while > stop.  `list_slice_neg` is the selected cells in
+   SELECTION order (descending positions); the source then builds Triangle(<that list>), which
+   re-sorts: the sort is a parameter here (Model/Order.v: sort_cells) so that this file stays
+   independent of the order model. *)
+Definition norm_bound_neg (len : Z) (dflt_ : Z) (x : option Z) : Z :=
+  match x with
+  | None => dflt_
+  | Some v => if v <? 0 then Z.max (v + len) (-1) else Z.min v (len - 1)
+  end.
+Fixpoint down_positions (fuel : nat) (i stop s : Z) : list Z :=
+  match fuel with
+  | O => []
+  | S f => if stop <? i then i :: down_positions f (i - s) stop s else []
+  end.
+Definition list_slice_neg (start stop : option Z) (s : positive) (t : list cell) : list cell :=
+  let len := Z.of_nat (length t) in
+  let a := norm_bound_neg len (len - 1) start in
+  let b := norm_bound_neg len (-1) stop in
+  pick (map Z.to_nat (down_positions (length t) a b (Z.pos s))) t.
+Definition getitem_neg_step (sorter : list cell -> list cell) (start stop : option Z) (s : positive)
+           (t : list cell) : gi_out := GTri (sorter (list_slice_neg start stop s t)).
+
+(* ------------------------------------------------------------------ TriangleSlice.__getitem__
+   The integer and range forms are the code of Triangle.__getitem__ (IInt / IRange above; the
+   result class TriangleSlice is not modelled).  The two-index form (period, evaluation) is the
+   three-index form without a metadata component: no metadata filter, and the metadata position
+   never counts as a slice -- exactly ITriple p e MNoneIdx.  Its filter lambdas / defaults / clip
+   keywords are translated separately (GenPred.gen_getitem_slice). *)
+Inductive index2 := I2Pair (p e : pidx) | I2BadArity.
+Definition slice_getitem (g : getitem_desc) (s : clip_spec) (ix : index2) (t : list cell) : result gi_out :=
+  match ix with
+  | I2Pair p e => getitem g s (ITriple p e MNoneIdx) t
+  | I2BadArity => Err ValueError
+  end.
